@@ -270,7 +270,7 @@ type vRun struct {
 	base    uint64   // first media sequence number of a real segment
 	obs     []*vStreamObs
 	k       int
-	sawTiny bool // native replay only: a frame duration below half a second was written
+	sawTiny bool // native replay only: two consecutive units of a track carry the same DTS (zero-length segments / parts possible)
 }
 
 type vHist struct {
@@ -466,8 +466,8 @@ func (r *vRun) writeVideo(ti int) {
 		dts = verifRangeI64("vdts0", -900000, 1<<33)
 	} else {
 		d := verifRangeI64("vdelta", 0, 1<<21)
-		verifPrefer(d >= 45000) // replayability: the real playlist parser rejects zero-length segments / zero targets
-		if !verifSymbolic() && d < 45000 {
+		verifPrefer(d >= 45000) // replayability: the real playlist parser rejects zero-length segments
+		if !verifSymbolic() && d == 0 {
 			r.sawTiny = true
 		}
 		dts = t.lastDTS + d
@@ -652,7 +652,7 @@ func (r *vRun) writeOpus(ti int) {
 	} else {
 		d := verifRangeI64("odelta", 0, 1<<20)
 		verifPrefer(d >= 24000)
-		if !verifSymbolic() && d < 24000 {
+		if !verifSymbolic() && d == 0 {
 			r.sawTiny = true
 		}
 		pts = t.lastDTS + d
@@ -709,7 +709,7 @@ func (r *vRun) writeAudio(ti int) {
 	} else {
 		d := verifRangeI64("adelta", 0, 1<<20)
 		verifPrefer(d >= 22050)
-		if !verifSymbolic() && d < 22050 {
+		if !verifSymbolic() && d == 0 {
 			r.sawTiny = true
 		}
 		dts = t.lastDTS + d
@@ -819,8 +819,8 @@ func (r *vRun) observe() {
 		if err != nil {
 			// (native build only: symbolically the text layer is bypassed) a served playlist the library's own
 			// decoder rejects cannot be observed further; that is a failure of whatever is being checked, except
-			// when the input contains frame durations below half a second (zero-length segments or parts and a zero
-			// TARGETDURATION / PART-TARGET are then possible, which the decoder rejects: documented limitation)
+			// when two consecutive units carry the same DTS (zero-length segments or parts are then possible, which
+			// the decoder rejects as "duration missing": documented limitation)
 			verifAssert("*", "served-playlist-accepted-by-own-decoder", r.sawTiny)
 			continue
 		}
